@@ -60,6 +60,8 @@ type World struct {
 
 	RootOrder   func([]string) []string
 	RetireOrder func([]string) []string
+	// DeleteDescending reverses the (otherwise ascending) order in which vacuum deletes objects.
+	DeleteDescending bool
 
 	active string // name of the client that runs (see SharedEndpoint)
 
@@ -143,6 +145,15 @@ func installHooks() {
 			return roots
 		}
 		return w.RetireOrder(roots)
+	}
+	kv.VerifDeleteOrder = func(names []string) []string {
+		// vacuum collects what it deletes in maps: fix the order (ascending; descending when the world says so)
+		s := append([]string{}, names...)
+		sort.Strings(s)
+		if w := current(); w != nil && w.DeleteDescending {
+			sort.Sort(sort.Reverse(sort.StringSlice(s)))
+		}
+		return s
 	}
 	s3db.VerifNow = func() (time.Time, bool) {
 		if w := current(); w != nil {
